@@ -113,7 +113,7 @@ func runSolverCtx(parent context.Context, sc solverCfg, script string, timeoutS 
 // (all three in parallel when `all` is set).
 func decide(ob *Obligation, timeoutS int, all bool, dumpDir string) {
 	if ob.vc != nil && ob.vc.split && ob.Expect != "sat" {
-		if choices := ob.vc.pathChoices(ob, 8); len(choices) > 1 {
+		if choices := ob.vc.pathChoices(ob, ob.vc.splitMax); len(choices) > 1 {
 			subs := make([]*Obligation, len(choices))
 			var wg sync.WaitGroup
 			for i, ch := range choices {
